@@ -255,6 +255,15 @@ class VFSZip(VFS_Real):
     def unlink(self, selector: str):
         raise NotImplementedError("VFSZip cannot unlink files.")
 
+    def _isoutside(self, selector: str) -> bool:
+        """A selector that does not lie below the archive (an absolute link
+        in a gophermap stored in it, say) names an object of the site, as it
+        does in the same tree on disk -- not whatever member is left over
+        after cutting len(zipfilename) characters off it."""
+        return selector != self.zipfilename and not selector.startswith(
+            self.zipfilename + "/"
+        )
+
     def _getfspathfinal(self, selector: str) -> str:
         # Strip off the filename part.
         selector = selector[len(self.zipfilename) :]
@@ -271,6 +280,8 @@ class VFSZip(VFS_Real):
         return self._getfspathfinal(selector)
 
     def stat(self, selector: str):
+        if self._isoutside(selector):
+            return self.chain.stat(selector)
         fspath = self.getfspath(selector)
         try:
             inode_data = self._getcacheentry(fspath)
@@ -312,6 +323,8 @@ class VFSZip(VFS_Real):
         )  # change time
 
     def isdir(self, selector: str) -> bool:
+        if self._isoutside(selector):
+            return self.chain.isdir(selector)
         fspath = self.getfspath(selector)
         try:
             item = self._getcacheentry(fspath)
@@ -321,6 +334,8 @@ class VFSZip(VFS_Real):
         return type(item) == dict
 
     def isfile(self, selector: str) -> bool:
+        if self._isoutside(selector):
+            return self.chain.isfile(selector)
         fspath = self.getfspath(selector)
         try:
             item = self._getcacheentry(fspath)
@@ -330,6 +345,8 @@ class VFSZip(VFS_Real):
         return type(item) != dict
 
     def exists(self, selector: str) -> bool:
+        if self._isoutside(selector):
+            return self.chain.exists(selector)
         fspath = self.getfspath(selector)
         return self._isentryincache(fspath)
 
@@ -339,6 +356,8 @@ class VFSZip(VFS_Real):
 
         assert mode in ("r", "rb")
 
+        if self._isoutside(selector):
+            return self.chain.open(selector, mode, errors=errors)
         fspath = self.getfspath(selector)
         try:
             item = self._getcacheentry(fspath)
